@@ -23,6 +23,16 @@ def fuzz(workers, runs, **kw):
 NOT_CLAIMED = {}
 
 PROPS = {
+    "C09": dict(
+        level="exploration",
+        technique="simulation-based property testing: libcoap client and server perform Block1/Block2 transfers over a virtual network with generated sizes, modes and per-datagram faults; byte-exact body / tiling / token / MTU / release-count oracle from handler logs and the wire trace",
+        level_text="Generated body lengths (dense around multiples of every block size), block size negotiation by MTU / server limit / client request, single-body and per-block modes, CON and NON, "
+                   "drop/duplicate/delay plans; every piece any handler obtains is compared byte for byte with the sender's keyed pseudo-random body.",
+        level_note="Trusted base: sim/sim.cc, handler bookkeeping in props/C09.cc. Q-Block (RFC 9177) is not enabled. 'Never silence' is checked for Confirmable transfers at bounded quiescence.",
+        quick=rc(12, 6000),
+        thorough=rc(14, 120000),
+        **SIM,
+    ),
     "C05": dict(
         level="exploration",
         technique="metamorphic simulation-based property testing: the same generated TCP/WebSocket byte stream is delivered to a libcoap endpoint under generated and enumerated cut plans; delivered-message lists compared with each other and with the reference-encoded list",
